@@ -1,12 +1,14 @@
 /-
-  M-APPLY: the commit → dispatch → apply pipeline of one node, as three separately schedulable actors.
+  M-APPLY: the commit → dispatch → apply pipeline of one node, as separately schedulable actors
+  (commit notification arrival, commit-handler iteration, worker fetch, worker apply, restart).
 
   Rust code modelled (all in /repo/d-engine-core/src):
   * `state_machine_handler/default_state_machine_handler.rs`
       `DefaultStateMachineHandler::update_pending`   → `updatePending`
       `DefaultStateMachineHandler::pending_range`    → the `pending > lastApplied` test in `processBatch`
-      `DefaultStateMachineHandler::apply_chunk`      → `work` (last_index captured before decode,
-                                                        `decode_entries` failure ⇒ error, `last_applied.store`)
+      `DefaultStateMachineHandler::apply_chunk`      → `fetch` (`decode_entries` failure ⇒ `Err`) and
+                                                        `applyHeld` (`StateMachine::apply_chunk`, then
+                                                        `last_applied.store(last index of the chunk)`)
   * `command.rs` `decode_entries`                    → `decode` / `isBad` (Config and Noop become `ACmd.noop`)
   * `commit_handler/default_commit_handler.rs`
       `DefaultCommitHandler::run` (one `select!` iteration: recv one notification, `try_recv` up to
@@ -15,8 +17,9 @@
         `get_entries_range`, the per-entry loop, early `Err` return that drops the unsent tail)  → `processBatch`
       `apply_config_change` (called only while `last_error.is_none()`)                     → `cfgCalls`
       `send_to_sm_worker` (non-empty batch is sent, `dispatched_up_to.fetch_max(last index)`) → `dispatchedAfter`
-  * `state_machine_handler/worker.rs` `StateMachineWorker::{run, apply_and_notify}`         → `work`
-      (an `Err` from `apply_chunk` makes `run` return: the worker is gone, later batches stay queued)
+  * `state_machine_handler/worker.rs` `StateMachineWorker::{run, apply_and_notify}`   → `fetch`, `applyHeld`
+      (an `Err` from `apply_chunk` makes `run` return: the worker is gone, its receiver is dropped, the
+       channel is closed and every later `send_to_sm_worker` of the commit handler fails)
   * `storage/buffered_raft_log.rs` `get_entries_range` (returns the entries *present* in the range) → `entriesFrom`
   * node restart (`d-engine-server/src/node/builder.rs`: handler rebuilt with
       `last_applied_index = state_machine.last_applied().index`, fresh channels, `dispatched_up_to = 0`) → `restart`
@@ -49,6 +52,7 @@ deriving Repr, DecidableEq, BEq
 inductive ACmd where
   | noop
   | op (c : Cmd)
+  | snap          -- marker in the observation: `StateMachine::apply_snapshot_from_file(last_included = index)`
 deriving Repr, DecidableEq, BEq
 
 abbrev IEntry := Nat × Payload      -- (index, payload)
@@ -70,6 +74,7 @@ def applyCmd (m : KV) : Cmd → KV
 def applyACmd (m : KV) : ACmd → KV
   | .noop => m
   | .op c => applyCmd m c
+  | .snap => m
 
 /-- `decode_entries` on one entry (only called on entries that are not `bad`). -/
 def decode : Payload → ACmd
@@ -85,6 +90,7 @@ def isBad : Payload → Bool
 
 structure St where
   log : List Payload := []
+  base : Nat := 0                 -- raft log purge boundary (`purge_logs_up_to`): entries ≤ base are gone
   lastApplied : Nat := 0          -- DefaultStateMachineHandler.last_applied
   pending : Nat := 0              -- DefaultStateMachineHandler.pending_commit
   dispatched : Nat := 0           -- DefaultCommitHandler.dispatched_up_to
@@ -98,6 +104,7 @@ structure St where
   kv : KV := []                   -- state machine content
   smLast : Nat := 0               -- StateMachine::last_applied().index
   cfgCalls : List (Nat × Bool) := []  -- Membership::apply_config_change calls (entry index, succeeded)
+  startLa : Nat := 0              -- ghost: `last_applied` the handler was constructed with (start / last restart)
 deriving Repr
 
 /-- Number entries from index `i`. -/
@@ -105,9 +112,10 @@ def number : Nat → List Payload → Batch
   | _, [] => []
   | i, p :: ps => (i, p) :: number (i + 1) ps
 
-/-- `raft_log.get_entries_range(lo..=hi)` on a log holding entries `1..=log.length`. -/
-def entriesFrom (log : List Payload) (lo hi : Nat) : Batch :=
-  let lo' := max lo 1
+/-- `raft_log.get_entries_range(lo..=hi)` on a log holding entries `base+1..=log.length`
+    (`log` keeps the purged prefix only so that indexes stay positions). -/
+def entriesFrom (log : List Payload) (base lo hi : Nat) : Batch :=
+  let lo' := max lo (base + 1)
   number lo' ((log.drop (lo' - 1)).take (hi + 1 - lo'))
 
 /-! ### process_batch -/
@@ -149,7 +157,22 @@ def processBatch (s : St) : St :=
     let start := max (s.lastApplied + 1) (s.dispatched + 1)
     if start > s.pending then s
     else
-      let a := (entriesFrom s.log start s.pending).foldl pbStep {}
+      let a := (entriesFrom s.log s.base start s.pending).foldl pbStep {}
+      let sent := pbFinish a
+      { s with queue := s.queue ++ sent,
+               dispatched := dispatchedAfter s.dispatched sent,
+               cfgCalls := s.cfgCalls ++ a.cfg }
+  else s
+
+/-- `process_batch` whose `pending_range()` read an older value `lread` of `last_applied` (the SM worker
+    stored a newer one before `dispatched_up_to` was read). Used only to show that such a stale read is harmless. -/
+def processBatchRead (lread : Nat) (s : St) : St :=
+  if s.workerDead then s else
+  if s.pending > lread then
+    let start := max (lread + 1) (s.dispatched + 1)
+    if start > s.pending then s
+    else
+      let a := (entriesFrom s.log s.base start s.pending).foldl pbStep {}
       let sent := pbFinish a
       { s with queue := s.queue ++ sent,
                dispatched := dispatchedAfter s.dispatched sent,
@@ -197,7 +220,21 @@ def applyHeld (s : St) : St :=
     machine's own `last_applied`. -/
 def restart (s : St) : St :=
   { s with lastApplied := s.smLast, pending := 0, dispatched := 0, notif := [], queue := [],
-           holding := none, workerDead := false }
+           holding := none, workerDead := false, startLa := s.smLast }
+
+/-- Snapshot install on a follower (`follower_state.rs` `InstallSnapshotChunk` →
+    `apply_snapshot_stream_from_leader` → `StateMachine::apply_snapshot_from_file`, then
+    `raft_log.purge_logs_up_to(last_included)`): the state machine content becomes the leader's state after
+    entries `1..=S`, its `last_applied` becomes `S`, the raft log loses entries `≤ S`.
+    Neither the handler's `last_applied`, nor `dispatched_up_to`, nor the batches already handed to the
+    SM worker are touched. -/
+def installSnapshot (s : St) (S : Nat) : St :=
+  if S = 0 ∨ S > s.log.length then s else
+  { s with kv := (s.log.take S).foldl (fun m p => applyACmd m (decode p)) [],
+           smLast := S,
+           base := max s.base S,
+           applied := s.applied ++ [(S, ACmd.snap)],
+           chunks := s.chunks ++ [[0, S]] }
 
 /-! ### Schedules -/
 
@@ -208,6 +245,7 @@ inductive Op where
   | fetch                  -- the SM worker receives (and decodes) the next queued batch
   | apply                  -- the SM worker applies the batch it holds and stores last_applied
   | restart
+  | snap (S : Nat)         -- a snapshot with last_included index S is installed
 deriving Repr, DecidableEq
 
 def step (mb : Nat) (s : St) : Op → St
@@ -217,8 +255,18 @@ def step (mb : Nat) (s : St) : Op → St
   | .fetch => fetch s
   | .apply => applyHeld s
   | .restart => restart s
+  | .snap S => installSnapshot s S
 
 def exec (mb : Nat) (s : St) (ops : List Op) : St := ops.foldl (step mb) s
+
+/-- The order predicate on the sequence of state-machine inputs (the C06 monitor): a command at index `i`
+    is in order iff `i = pos + 1`; a snapshot install moves the position to its index and must not lie
+    behind what has already been applied. `some p` = in order, final position `p`. -/
+def walk : Nat → List (Nat × ACmd) → Option Nat
+  | pos, [] => some pos
+  | pos, (i, .snap) :: rest => if i < pos then none else walk i rest
+  | pos, (i, .noop) :: rest => if i = pos + 1 then walk i rest else none
+  | pos, (i, .op _) :: rest => if i = pos + 1 then walk i rest else none
 
 /-- Indexes handed to the state machine, in order. -/
 def appliedIdx (s : St) : List Nat := s.applied.map (·.1)
